@@ -82,9 +82,104 @@ def helper_stage(ctx):
                                "case": b[0].get("case"), "failures": b[0].get("detail"), "builder_call": b[0].get("builder_call")})
 
 
+def late_failure_case(case):
+    """An assignment that passes the setter's own validation but is refused further down (by `update_variable_bounds` / the solver interface),
+    inside a `with model:` block that also holds successful edits; the exception is caught inside the block or leaves it.  After the block the
+    model must be exactly as at `__enter__` and leaving the block must not raise anything of its own."""
+    import warnings
+    import canon
+    fails = []
+    with warnings.catch_warnings():
+        warnings.simplefilter("ignore")
+        m = coreops.build_model(case["spec"])
+        if not len(m.reactions):
+            return fails
+        before = canon.full_dump(m)
+        r = m.reactions[case["i"] % len(m.reactions)]
+        r2 = m.reactions[case["j"] % len(m.reactions)]
+        bad = {"nan_lb": lambda: setattr(r, "lower_bound", float("nan")), "nan_ub": lambda: setattr(r, "upper_bound", float("nan")),
+               "str_bounds": lambda: setattr(r, "bounds", ("0", "5")), "nan_bounds": lambda: setattr(r, "bounds", (float("nan"), float("nan")))}[case["bad"]]
+        raised_by_assignment = None
+        try:
+            with m:
+                if case["edits_before"]:
+                    r.upper_bound = r.upper_bound + 1 if r.upper_bound < 1e9 else r.upper_bound
+                    r2.knock_out()
+                if case["caught_inside"]:
+                    try:
+                        bad()
+                    except Exception as e:
+                        raised_by_assignment = e
+                    if case["edits_after"] and (r2 is not r or case.get("same_reaction")):
+                        # (a later edit of the very reaction whose assignment was refused is the known finding
+                        # refused-bound-then-edit-same-reaction: only its recorded witness takes that path)
+                        r2.bounds = (-1, 1)
+                else:
+                    try:
+                        bad()
+                    except Exception as e:
+                        raised_by_assignment = e
+                        raise
+        except Exception as e:
+            if e is not raised_by_assignment:
+                fails.append(f"leaving the block raised {type(e).__name__}: {e}")
+        if raised_by_assignment is None:
+            return fails        # the assignment was accepted: nothing to say here
+        try:
+            after = canon.full_dump(m)
+        except Exception as e:
+            return fails + [f"the model cannot be read after the block: {type(e).__name__}: {e}"]
+        if after != before:
+            import core_engine
+            fails.append("the model is not restored after a block with a refused assignment: " + core_engine.diff_summary(before, after))
+    return fails
+
+
+def late_failure_stage(ctx):
+    import random
+    rng = random.Random(f"c03-late-{ctx.seed}-{ctx.attempt}")
+    n = ctx.scale(40, 600)
+    ran = 0
+    for _ in range(n):
+        case = {"spec": coreops.gen_model_spec(rng), "i": rng.randint(0, 9), "j": rng.randint(0, 9), "bad": rng.choice(["nan_lb", "nan_ub", "str_bounds", "nan_bounds"]),
+                "edits_before": rng.random() < 0.6, "caught_inside": rng.random() < 0.5, "edits_after": rng.random() < 0.5}
+        fails = late_failure_case(case)
+        ran += 1
+        if fails:
+            ctx.violations.append({"engine": "refused assignment inside a context", "late_failure_case": case, "failures": fails[:4]})
+            break
+    ctx.coverage["late_failure_blocks"] = ran
+    for kf in common.known_for("C03"):
+        w = kf.get("witness") or {}
+        if "late_failure_case" in w:
+            try:
+                f = late_failure_case(w["late_failure_case"])
+            except Exception as e:
+                f = [str(e)]
+            if f:
+                ctx.known_hits.append(f"{kf['signature']}: {kf['description'][:200]}")
+            else:
+                ctx.notes.append(f"known finding {kf['signature']} no longer reproduces")
+
+
+def pre_stages(ctx):
+    helper_stage(ctx)
+    late_failure_stage(ctx)
+
+
 def run(ctx):
+    if getattr(ctx, "replay", None):
+        import json
+        v = (json.loads(open(ctx.replay).read()).get("violation") or {})
+        if "late_failure_case" in v:
+            fails = late_failure_case(v["late_failure_case"])
+            print(json.dumps({"case": v["late_failure_case"], "failures": fails}, indent=1))
+            if fails:
+                print(f"VIOLATION property=C03 replay={ctx.replay}")
+                return 1
+            return 0
     return core_checks.run_core_property(ctx, "CobraModel.Props.C03", kinds=KINDS, oracles=("ctx", "xref", "sync"), quick=300, thorough=6000,
-                                         rule=RULE, pre_stage=helper_stage, extra_scan=__import__('auxcorr').SCAN, maxlen=16, profiles=[KINDS] + coreops.PROFILES[1:])
+                                         rule=RULE, pre_stage=pre_stages, extra_scan=__import__('auxcorr').SCAN, maxlen=16, profiles=[KINDS] + coreops.PROFILES[1:])
 
 
 if __name__ == "__main__":
